@@ -150,15 +150,18 @@ CLAIMED = {
         text="PARTIAL. Proved about the mirror of the loader: types_unique / params_unique (a successful load has pairwise "
              "distinct type and parameter names), duplicate_type_rejected / duplicate_parameter_rejected, "
              "unknown_type_ref_rejected / parameter_type_resolves, containers_unique (the three name tables of the definition "
-             "object never hold two entries for a name, by induction through the recursive cache filling). Not proved: the "
-             "exactness of inheritor lists and the rejection of dangling container/entry references and cycles end-to-end — these "
-             "are decided by the correspondence (all single-point corruptions of generated documents) with an independent oracle "
+             "object never hold two entries for a name, by induction through the recursive cache filling), inheritors_exact / "
+             "popFold_spec / basedOn_nodup (after the back-population pass each container's inheritor list is exactly the "
+             "containers naming it as base, each once, in table order, all other fields untouched). Not proved: the rejection of "
+             "dangling container/entry references and cycles end-to-end, and that the theorems compose into one statement about "
+             "from_xtce — these are decided by the correspondence (all single-point corruptions of generated documents) with an independent oracle "
              "over the document tree; object identity is checked with `is` on the real graph.",
         design="§7 C17", technique="Lean 4 proof (fold invariants) + corruption-sweep correspondence check"),
     "C09": dict(
         text="PARTIAL. Proved (Lean mirror of every to_xml / from_xml over abstract XML trees): comparison_roundtrip, "
              "condition_roundtrip, linear_adjustment_roundtrip (slope and intercept, which the library's own == ignores), "
-             "term_roundtrip / polynomial_roundtrip via the generic mapM_roundtrip, under the stated hypotheses that CPython's "
+             "term_roundtrip / polynomial_roundtrip and splinepoint_roundtrip / spline_roundtrip via the generic mapM_roundtrip "
+             "(spline points keep their stored order: sorting a strictly increasing list is the identity), under the stated hypotheses that CPython's "
              "str/int/float printing and parsing round-trip. The round trip of whole encodings, parameter types, containers and "
              "the equality of decoding is not a theorem: it is decided by the correspondence — definitions built both ways "
              "(loaded from independently written XML with units, empty descriptions, time types, unconditional inheritance; "
